@@ -292,9 +292,8 @@ impl Asm<'_> {
 						// distinct offsets: a second frame for the same offset would never be handed out
 						let mut picks: Vec<usize> = starts.clone();
 						self.r.shuffle(&mut picks);
-						// (at most one entry: duke orders the entries of the old format by label id, not by offset, and then hands out
-						// only those that happen to be in offset order — reported, kept out of this stream)
-						let cnt = self.r.below(2).min(picks.len());
+						// (in any order: the reader sorts them by offset — 69346bc)
+						let cnt = self.r.below(4).min(picks.len());
 						let mut body = Vec::new();
 						p2(&mut body, cnt as u16);
 						for pc in picks.into_iter().take(cnt) {
